@@ -11,7 +11,6 @@ import (
 	"path/filepath"
 	"regexp"
 	"sort"
-	"strconv"
 	"strings"
 )
 
@@ -53,7 +52,7 @@ type FuncContract struct {
 	Modifies    []ast.Expr
 	HasModifies bool
 	ModAll      bool
-	Loops       map[int]*LoopSpec
+	Loops       map[string]*LoopSpec // "N" for the N-th loop of the function, "$k.N" for the N-th loop of its closure $k
 	Calls       []CallAssert
 	Inline      bool
 	Pure        bool
@@ -61,6 +60,7 @@ type FuncContract struct {
 	Trusted     bool
 	Safety      bool
 	NoVerify    bool // contract is assumed for the body too (trusted)
+	StoreNames  []string // variables/fields whose stores are tracked as events ("before store X", stored(X))
 	Callback    string // name of a function-typed parameter that the callee invokes any number of times
 	Ghost       []GhostUpdate
 	Line        int
@@ -102,7 +102,8 @@ type Contracts struct {
 	Errors []string
 }
 
-var keywordRe = regexp.MustCompile(`^(callback|ghost|spec|func|interface|requires|ensures|modifies|loop|before|after|on|forbid|inline|pure|stable|trusted|safety|noverify)\b`)
+var keywordRe = regexp.MustCompile(`^(track|callback|ghost|spec|func|interface|requires|ensures|modifies|loop|before|after|on|forbid|inline|pure|stable|trusted|safety|noverify)\b`)
+var loopKeyRe = regexp.MustCompile(`^(\$[0-9$]+\.)?[0-9]+$`)
 var labelRe = regexp.MustCompile(`^([A-Za-z][A-Za-z0-9_-]*):\s+(.*)$`)
 
 // ppImplies rewrites "a ==> b" to implies(a, b) and "a <==> b" to iff(a, b).
@@ -363,7 +364,7 @@ func (c *Contracts) loadContractFile(path, pkgPath string) {
 			}
 			// name may contain spaces only in "(*T).m" form: no. take first field.
 			name := fields[0]
-			cur = &FuncContract{File: path, PkgPath: pkgPath, Name: name, IsInterface: kw == "interface", Loops: map[int]*LoopSpec{}, Line: st.line}
+			cur = &FuncContract{File: path, PkgPath: pkgPath, Name: name, IsInterface: kw == "interface", Loops: map[string]*LoopSpec{}, Line: st.line}
 			key := qualify(name, pkgPath)
 			if _, dup := c.Funcs[key]; dup {
 				c.errf("%s: duplicate contract for %s", pos, key)
@@ -406,8 +407,8 @@ func (c *Contracts) loadContractFile(path, pkgPath string) {
 					c.errf("%s: bad loop clause", pos)
 					continue
 				}
-				n, err := strconv.Atoi(f[0])
-				if err != nil {
+				n := f[0]
+				if !loopKeyRe.MatchString(n) {
 					c.errf("%s: bad loop ordinal %q", pos, f[0])
 					continue
 				}
@@ -433,8 +434,8 @@ func (c *Contracts) loadContractFile(path, pkgPath string) {
 			case "before", "after":
 				// before|after (call|go|defer) PATTERN assert label: expr
 				f := strings.Fields(rest)
-				if len(f) < 3 || (f[0] != "call" && f[0] != "go" && f[0] != "defer" && f[0] != "mapupdate" && f[0] != "send") {
-					c.errf("%s: expected 'call|go|defer|mapupdate|send' after %s", pos, kw)
+				if len(f) < 3 || (f[0] != "call" && f[0] != "go" && f[0] != "defer" && f[0] != "mapupdate" && f[0] != "send" && f[0] != "store") {
+					c.errf("%s: expected 'call|go|defer|mapupdate|send|store' after %s", pos, kw)
 					continue
 				}
 				body := strings.TrimSpace(rest[len(f[0]):])
@@ -444,6 +445,9 @@ func (c *Contracts) loadContractFile(path, pkgPath string) {
 					continue
 				}
 				pat := c.parsePattern(f[0], body[:i], pos)
+				if f[0] == "store" {
+					cur.StoreNames = append(cur.StoreNames, pat.Callee)
+				}
 				cl := c.clause(strings.TrimSpace(body[i+len(" assert "):]), pos)
 				cur.Calls = append(cur.Calls, CallAssert{When: kw, Pattern: pat, Clause: cl})
 			case "forbid":
@@ -463,6 +467,14 @@ func (c *Contracts) loadContractFile(path, pkgPath string) {
 					Clause: Clause{Label: label, Src: "false", Expr: ast.NewIdent("false"), Pos: pos}})
 			case "callback":
 				cur.Callback = strings.TrimSpace(rest)
+			case "track":
+				// track store NAME...: record stores to these variables/fields as events
+				f := strings.Fields(rest)
+				if len(f) < 2 || f[0] != "store" {
+					c.errf("%s: expected 'track store NAME...'", pos)
+					continue
+				}
+				cur.StoreNames = append(cur.StoreNames, f[1:]...)
 			case "on":
 				// on return assert label: expr
 				i := strings.Index(rest, "assert ")
